@@ -802,7 +802,8 @@ def observation(res: dict) -> Optional[dict]:
 
 def coq_case(cl: dict, obs: dict) -> str:
     if obs["code"] != 0:
-        x = f"({obs['code']}, [], [], [], [], [], [], [], [], [], [], [])"
+        e = "(@nil (Z * Z * string))"
+        x = f"({obs['code']}, @nil Z, @nil string, {e}, {e}, {e}, {e}, @nil Z, @nil Z, @nil Z, @nil Z, @nil Z)"
     else:
         x = "(0, %s, %s, %s, %s, %s, %s, %s, %s, %s, %s, %s)" % (
             _zl(obs["nums"]), _sl(obs["names"]), _el(obs["epy"]), _el(obs["ec"]), _el(obs["em"]), _el(obs["ejs"]),
@@ -1123,3 +1124,266 @@ def diagnose(fam, cases: List[str], timeout: int = 600) -> List[int]:
     if rc != 0 or not m:
         return [-1] * len(cases)
     return [int(x) for x in re.findall(r"-?\d+", m.group(1))]
+
+
+# ----------------------------------------------------------------------------------------------
+# corpus shared by C04 / C15 / C16, construct classes, cross-language oracles
+# ----------------------------------------------------------------------------------------------
+
+KNOBS = [dict(), dict(hdr=1.0), dict(alias_field=0.6), dict(struct_array=0.7), dict(alias_struct=0.5),
+         dict(struct_msg=0.6), dict(alias_struct=0.3, struct_msg=0.3, alias_field=0.3, struct_array=0.3, hdr=0.3),
+         dict(nopad=1.0), dict(hdr=1.0), dict()]
+
+
+def build_corpus(rng, tier: str, natives: List[str], nrandom: Optional[int] = None) -> List[dict]:
+    out = [dict(tag="sys:" + t, cl=c, coq=True) for t, c in systematic_closures(natives)]
+    n = nrandom if nrandom is not None else (110 if tier == "quick" else 1200)
+    for i in range(n):
+        kn = KNOBS[i % len(KNOBS)]
+        out.append(dict(tag="rnd:" + ",".join(sorted(kn)) if kn else "rnd:clean", cl=random_closure(rng, natives, kn), coq=True))
+    return out
+
+
+def construct_classes(model: dict) -> set:
+    """construct classes (the exclusions of the Coq theorems) present in the implementation's parsed model"""
+    cs = set()
+    if any(a[2] == "SDF" for a in model["aliases"]):
+        cs.add("alias-of-struct")
+    for s in model["structs"]:
+        for f in s["fields"]:
+            if f["kind"] == "MDF":
+                cs.add("struct-field-of-message-type")
+    for d in model["structs"] + model["messages"]:
+        for f in d["fields"]:
+            if f["kind"] == "TypeAlias":
+                cs.add("field-of-alias-type")
+                if f["akind"] == "SDF":
+                    cs.add("field-of-alias-of-struct")
+            if f["kind"] in ("SDF", "MDF") and f["length"] is not None and f["length"] >= 2:
+                cs.add("array-of-struct")
+            if f["length"] is not None and f["length"] == 0:
+                cs.add("array-length-zero")
+            if f["type_name"] == "signed char" or f.get("base") == "signed char":
+                cs.add("signed-char")
+    if any(a[1] == "signed char" for a in model["aliases"]):
+        cs.add("signed-char")
+    if not any(s["name"] == "RTMA_MSG_HEADER" for s in model["structs"]):
+        cs.add("no-msg-header")
+    return cs
+
+
+def source_classes(cl: dict) -> set:
+    """construct classes visible in the source closure (for runs the parser did not survive)"""
+    cs = set()
+    for f in cl["files"]:
+        for it in f["items"]:
+            if it[0] == "alias" and it[2] == "signed char":
+                cs.add("signed-char")
+            if it[0] in ("struct", "msg"):
+                b = it[2] if it[0] == "struct" else it[3]
+                if b and b[0] == "fields":
+                    for _, ty, ln in b[1]:
+                        if ty == "signed char":
+                            cs.add("signed-char")
+    return cs
+
+
+def hexnum(txt: str) -> Optional[int]:
+    t = txt.strip().strip('"').strip("'")
+    if t.lower().startswith("0x"):
+        t = t[2:]
+    try:
+        return int(t, 16)
+    except ValueError:
+        return None
+
+
+def cross_language_check(res: dict, obs: dict, parser_types: Dict[str, Tuple[int, int]]) -> List[Tuple[str, str]]:
+    """C04 spec oracle, independent of the Coq model: the four outputs (static readers), the imported Python
+    module (ctypes), the gcc probe and the node dump against each other and against what the compiler recorded.
+    returns [(key, description)]"""
+    bad: List[Tuple[str, str]] = []
+    model = res["model"]
+    rd = obs["readers"]
+    L = res["load"]
+    defs = model["structs"] + model["messages"]
+
+    def expect_cls(f):
+        k = f["kind"]
+        if k == "NativeType":
+            return ("n",) + tuple(parser_types[f["type_name"]])
+        if k == "TypeAlias":
+            if f["akind"] == "NativeType":
+                return ("n",) + tuple(parser_types[f["base"]])
+            return ("s", f["base"])
+        return ("s" if k == "SDF" else "m", f["type_name"])
+
+    # ---- scalars: ids, hashes, constants, module ids, host ids
+    def as_int(v):
+        try:
+            return int(str(v), 0)
+        except ValueError:
+            return str(v)
+    want = dict(constants={c[0]: c[1] for c in model["constants"]}, hids={h[0]: h[1] for h in model["host_ids"]},
+                mids={h[0]: h[1] for h in model["module_ids"]}, mts={h[0]: h[1] for h in model["message_ids"]})
+    pref = dict(py=dict(constants="", hids="", mids="MID_", mts="MT_"), c=dict(constants="", hids="HID_", mids="MID_", mts="MT_"),
+                js=dict(constants="", hids="", mids="", mts=""), m=dict(constants="", hids="", mids="", mts=""))
+    core = lambda src: str(src).startswith("core_defs/")
+    want_c = dict(constants={c[0]: c[1] for c in model["constants"] if not core(c[3])},
+                  hids={h[0]: h[1] for h in model["host_ids"] if not core(h[2])},
+                  mids={h[0]: h[1] for h in model["module_ids"] if not core(h[2])},
+                  mts={h[0]: h[1] for h in model["message_ids"] if not core(h[2])})
+    for lang in ("py", "c", "js", "m"):
+        for sec in ("constants", "hids", "mids", "mts"):
+            got = {}
+            for k, v in rd[lang][sec]:
+                p = pref[lang][sec]
+                got[k[len(p):] if p and k.startswith(p) else k] = as_int(v)
+            exp = want_c[sec] if lang == "c" else want[sec]   # c99.py leaves core_defs.yaml items to RTMA_types.h
+            if lang == "m":
+                exp = {m_sanitize(k): v for k, v in exp.items()}
+                if sec == "constants":   # matlab puts HID_/MID_/MT_ defines into the same table
+                    got = {k: v for k, v in got.items() if not re.match(r"(HID|MID|MT)_", k) or k in exp}
+            if lang == "py" and sec == "constants":
+                pass
+            if got != exp:
+                d = {k: (exp.get(k), got.get(k)) for k in set(exp) | set(got) if exp.get(k) != got.get(k)}
+                pfx = {"constants": "defines_", "hids": "HID_", "mids": "MID_", "mts": "MT_"}[sec]
+                key = f"scalars:{lang}:{sec}"
+                if lang == "m" and any(pfx in k for k in want[sec]) and all((pfx in k) for k in d if k in exp):
+                    key = "matlab:prefix-stripped-inside-name"
+                bad.append((key, f"{lang} {sec} differ from the parsed model: {str(d)[:200]}"))
+    hashes = {m["name"]: int(m["hash"][:8], 16) for m in model["messages"]}
+    hashes_c = {m["name"]: int(m["hash"][:8], 16) for m in model["messages"] if not core(m["src"])}
+    for lang, key, sani in (("c", "hashes", False), ("js", "hashes", False), ("m", "hashes", True)):
+        got = {}
+        for k, v in rd[lang][key]:
+            got[k[5:] if lang == "c" and k.startswith("HASH_") else k] = hexnum(v)
+        exp = {m_sanitize(k) if sani else k: v for k, v in (hashes_c if lang == "c" else hashes).items()}
+        if got != exp:
+            bad.append((f"hash:{lang}", f"{lang} message hashes differ from sha256(raw)[:8]"))
+    allh = {d["name"]: int(d["hash"][:8], 16) for d in defs}
+    for d in rd["py"]["defs"]:
+        if allh.get(d["name"]) != d["hash"] or not re.fullmatch(r"0x[0-9A-F]{8}", d.get("hash_text") or ""):
+            bad.append(("hash:py", f"python type_hash of {d['name']} differs / not 0x + 8 upper-case hex digits"))
+        if d["ismsg"] and d["id"] != want["mts"].get(d["name"]):
+            bad.append(("id:py", f"python type_id of {d['name']} = {d['id']}"))
+    # ---- the imported python module: one flat namespace
+    if L.get("py", {}).get("ok"):
+        ints = L["py"]["ints"]
+        secs = [("constants", "", [(c[0], c[1]) for c in model["constants"] if c[2] == "int"]), ("host_ids", "", [(h[0], h[1]) for h in model["host_ids"]]),
+                ("module_ids", "MID_", [(h[0], h[1]) for h in model["module_ids"]]), ("message_ids", "MT_", [(h[0], h[1]) for h in model["message_ids"]])]
+        bound: Dict[str, int] = {}
+        for sec, p, rows in secs:
+            for n, v in rows:
+                bound[p + n] = bound.get(p + n, 0) + 1
+        for sec, p, rows in secs:
+            for n, v in rows:
+                if ints.get(p + n) != v:
+                    bad.append(("py:name-collision" if bound[p + n] > 1 else "scalars:py-loaded",
+                                f"imported module: {p + n} = {ints.get(p + n)}, {sec} says {n} = {v}"
+                                + (" (the python output binds this name more than once: host ids carry no prefix)" if bound[p + n] > 1 else "")))
+    # ---- aliases: the type each language binds the alias name to
+    for lang in ("py", "c", "js", "m"):
+        got = {a[0]: tuple(a[1]) for a in rd[lang]["aliases"]}
+        for a in model["aliases"]:
+            if lang == "c" and "core_defs" in str(a[5]):
+                continue
+            if a[2] == "NativeType":
+                w, kd = parser_types[a[1]]
+                e = ("n", 0, 3 if kd == 3 else 0) if lang == "js" else ("n", w, 0 if (lang == "m" and kd == 3) else kd)
+            else:
+                e = ("s", a[1])
+            g = got.get(m_sanitize(a[0]) if lang == "m" else a[0])
+            if g != e and not (a[2] != "NativeType"):
+                bad.append((f"alias:{lang}", f"{lang} binds alias {a[0]} ({a[1]}) to {g}, the parsed model says {e}"))
+    if L.get("py", {}).get("ok"):
+        for a in model["aliases"]:
+            g = L["py"]["aliases"].get(a[0])
+            if a[2] == "NativeType" and g is not None and (g[1], g[0]) != tuple(parser_types[a[1]]) and g[2] == -1:
+                bad.append(("alias:py-ctypes", f"imported module: alias {a[0]} ({a[1]}) is a ctypes type of (width, class) = ({g[1]}, {g[0]}), "
+                                               f"C typedef / parser say {parser_types[a[1]]}"))
+    # ---- per definition field tables
+    for lang in ("py", "c", "js", "m"):
+        by = {d["name"]: d for d in rd[lang]["defs"]}
+        for d in defs:
+            r = by.get(d["name"])
+            if r is None:
+                if (d["fields"] or lang != "c") and not (lang == "c" and core(d["src"])):
+                    bad.append((f"sig:{lang}:missing", f"{d['name']} missing from the {lang} output"))
+                continue
+            exp = []
+            for f in d["fields"]:
+                c = expect_cls(f)
+                if lang == "js" and c[0] == "n":
+                    c = ("n", 0, 3 if c[2] == 3 else 0)
+                if lang == "m" and c[0] == "n" and c[2] == 3:
+                    c = ("n", c[1], 0)
+                exp.append([f["name"], c, f["length"] or 1])
+            got = [[f[0], tuple(f[1]), f[2]] for f in r["fields"]]
+            if lang == "c":   # core aliases (MODULE_ID, ...) are typedef'd by RTMA_types.h, not by this header
+                core_al = {a[0] for a in model["aliases"] if "core_defs" in str(a[5])}
+                got = [[g[0], e[1] if g[1][0] == "?" and g[1][1] in core_al else g[1], g[2]] for g, e in zip(got, exp)] \
+                    if len(got) == len(exp) else got
+            if got != exp:
+                k = "array-length-zero" if any(f["length"] == 0 for f in d["fields"]) and lang != "py" else f"sig:{lang}"
+                bad.append((k, f"{lang} fields of {d['name']}: {got} vs parsed model {exp}"[:400]))
+    # ---- layouts: gcc vs ctypes vs recorded
+    pyc = {c["name"]: c for c in L.get("py", {}).get("classes", [])} if L.get("py", {}).get("ok") else None
+    pr = L.get("c", {}).get("probe") if L.get("c", {}).get("ok") else None
+    if pr is not None and "error" in pr:
+        bad.append(("layout:c-probe", "probe does not compile: " + pr["error"][:200]))
+        pr = None
+    for d in defs:
+        cname = ("MDF_" if "type_id" in d else "") + d["name"]
+        zero = any(f["length"] == 0 for f in d["fields"])
+        if pyc is not None:
+            c = pyc.get(cname)
+            if c is None:
+                bad.append(("layout:py-missing", f"{cname} missing from the imported module"))
+            else:
+                if c["size"] != d["size"] or c["type_size"] != d["size"]:
+                    bad.append(("layout:py-size", f"{cname}: ctypes.sizeof {c['size']}, type_size {c['type_size']}, recorded {d['size']}"))
+                ptr = 0
+                for f, cf in zip(d["fields"], c["fields"]):
+                    if cf["name"] != f["name"] or cf["offset"] != ptr or cf["size"] != f["size"]:
+                        bad.append(("layout:py-field", f"{cname}.{f['name']}: ctypes offset/size {cf['offset']}/{cf['size']} vs {ptr}/{f['size']}"))
+                        break
+                    ptr += f["size"]
+                if len(c["fields"]) != len(d["fields"]):
+                    bad.append(("layout:py-field", f"{cname}: {len(c['fields'])} ctypes fields vs {len(d['fields'])}"))
+        if pr is not None and d["fields"] and not core(d["src"]):
+            g = pr.get(cname)
+            if g is None:
+                bad.append(("layout:c-missing", f"{cname} missing from the C header"))
+            else:
+                key = "array-length-zero" if zero else "layout:c"
+                if g["size"] != d["size"]:
+                    bad.append((key, f"{cname}: gcc sizeof {g['size']} != recorded type_size {d['size']}"
+                                + (f" = ctypes {pyc[cname]['size']}" if pyc and cname in pyc else "")))
+                ptr = 0
+                for f in d["fields"]:
+                    if g["offs"].get(f["name"]) != ptr or g["fsz"].get(f["name"]) != f["size"]:
+                        bad.append((key, f"{cname}.{f['name']}: gcc offsetof/sizeof {g['offs'].get(f['name'])}/{g['fsz'].get(f['name'])} vs recorded {ptr}/{f['size']}"))
+                        break
+                    ptr += f["size"]
+    # ---- node: field names / order / array lengths of every factory result
+    js = L.get("js", {})
+    if js.get("ok"):
+        for sec, key in (("SDF", "structs"), ("MDF", "messages")):
+            for d in model[key]:
+                f = js[sec].get(d["name"])
+                if not f or not f["ok"]:
+                    continue
+                got = [(k, (v["a"] if isinstance(v, dict) and "a" in v else (int(v[1:]) if isinstance(v, str) and v[0] == "s" and f2["type_name"] == "char" and (f2["length"] or 0) > 1 else 1)))
+                       for (k, v), f2 in zip(f["shape"]["o"], d["fields"])]
+                exp = []
+                for f2 in d["fields"]:
+                    if f2["type_name"] == "char" and (f2["length"] or 0) > 1:
+                        exp.append((f2["name"], 0))       # a string: no element count in the value
+                    else:
+                        exp.append((f2["name"], f2["length"] if f2["length"] is not None else 1))
+                if [g[0] for g in got] != [e[0] for e in exp] or any(e[1] != g[1] for g, e in zip(got, exp) if e[1] != 0):
+                    k = "array-length-zero" if any(f2["length"] == 0 for f2 in d["fields"]) else "sig:js-node"
+                    bad.append((k, f"node: {d['name']} fields {got} vs {exp}"[:300]))
+    return bad
